@@ -473,6 +473,7 @@ class Translator:
         self.field_names = {}    # field decl id -> C member name
         self.const_cache = {}
         self._ret_cache = {}
+        self._merged = {}
         self._scan()
 
     # ---------------------------------------------------------------- scanning
@@ -1009,9 +1010,11 @@ class Translator:
         fctx.record = rec
         is_method = kind in ('CXXMethodDecl', 'CXXConstructorDecl', 'CXXDestructorDecl', 'CXXConversionDecl') and decl.get('storageClass') != 'static'
         params = []
+        pinfo = []
         if is_method:
             rct = self.record_ct(rec, fctx)
             params.append(CT('ptr', elem=rct).decl('self'))
+            pinfo.append({'name': 'self', 'ptr': True, 'pointee_decl': rct.decl('$'), 'decl': CT('ptr', elem=rct).decl('$')})
         # lambda captures
         lam = self.ast.par(rec) if rec is not None else None
         if rec is not None and lam is not None and lam.get('kind') == 'LambdaExpr':
@@ -1026,6 +1029,10 @@ class Translator:
                 nm = c.get('name') or ('_p%d' % pi)
                 c['_cname'] = nm
                 params.append(ct.decl(nm))
+                if ct.kind == 'ptr' and ct.ref:
+                    pinfo.append({'name': nm, 'ptr': True, 'pointee_decl': ct.elem.decl('$'), 'decl': ct.decl('$')})
+                else:
+                    pinfo.append({'name': nm, 'ptr': False, 'decl': ct.decl('$')})
                 pi += 1
         # return type
         fctx.is_ctor = kind == 'CXXConstructorDecl'
@@ -1068,7 +1075,8 @@ class Translator:
         text.append('}')
         self.fn_text[decl['id']] = '\n'.join(text)
         self.fn_meta[cname] = {'qualname': norm_type_string(self.ast.qualname(decl)), 'file': decl.get('_file'), 'line': decl.get('_line'),
-                               'loops': fctx.loops, 'mangled': decl.get('mangledName'), 'has_spec': spec is not None}
+                               'loops': fctx.loops, 'mangled': decl.get('mangledName'), 'has_spec': spec is not None,
+                               'params': pinfo, 'ret': ret.decl(), 'ret_decl': ret.decl('$'), 'ret_ref': fctx.ret_ref}
 
     def _first_return(self, body):
         stack = [body]
@@ -1171,8 +1179,18 @@ class Translator:
                 if s.sig is None or s.sig in cname:
                     hits.append(s)
         if not hits: return None
-        if len(hits) > 1: fail('several specs match %s: %s' % (cname, [h.src for h in hits]), decl)
-        return hits[0]
+        if len(hits) == 1: return hits[0]
+        key = tuple(id(h) for h in hits)
+        if key in self._merged: return self._merged[key]
+        m = FuncSpec(); m.name = hits[0].name; m.src = ','.join(h.src for h in hits)
+        for h in hits:
+            h.used = True
+            m.requires += h.requires; m.ensures += h.ensures; m.assigns += h.assigns; m.frees += h.frees
+            for k, l in h.loops.items():
+                if k in m.loops: fail('loop %d of %s annotated twice' % (k, cname), decl)
+                m.loops[k] = l
+        self._merged[key] = m
+        return m
 
     def _qual_match(self, pat, q):
         """pat is a qualified name without template arguments; q the full canonical qualname"""
@@ -1789,7 +1807,20 @@ class Translator:
 
     def ex_ArraySubscriptExpr(self, n, fctx):
         a, i = n['inner']
-        return '%s[%s]' % (self.paren(self.ex(a, fctx)), self.ex(i, fctx))
+        # element-level bounds obligation for fixed-size arrays (CBMC's pointer check is only object-granular)
+        base = a
+        while base.get('kind') in ('ImplicitCastExpr', 'ParenExpr') and base.get('castKind') in (None, 'ArrayToPointerDecay', 'NoOp'):
+            base = base['inner'][0]
+        bt = base.get('type', {})
+        bs = bt.get('desugaredQualType') or bt.get('qualType') or ''
+        idx = self.ex(i, fctx)
+        try:
+            pt = parse_type(bs)
+            if pt.kind == 'array' and re.match(r'^\d+$', str(pt.size)):
+                idx = 'VERIF_IDX(%s, %sUL)' % (idx, pt.size)
+        except Unsupported:
+            pass
+        return '%s[%s]' % (self.paren(self.ex(a, fctx)), idx)
 
     def ex_MemberExpr(self, n, fctx):
         base = n['inner'][0]
@@ -2250,6 +2281,13 @@ class Translator:
         fail('no model for std call %s' % q, n)
 
     # ---------------------------------------------------------------- output
+    def structs_only(self):
+        out = ['/* struct layouts of the generated C (for native replay); generated by cxx2c */']
+        for t in self.struct_defs:
+            if t.startswith('static inline'): continue
+            out.append(t)
+        return '\n'.join(out)
+
     def output(self, prelude_text='', spec_prelude=''):
         out = []
         out.append('/* generated by cxx2c from clang\'s AST of the instantiated nmtools code -- do not edit */')
@@ -2272,7 +2310,8 @@ class Translator:
 
 
 def main():
-    import argparse
+    import argparse, gc
+    gc.disable()
     ap = argparse.ArgumentParser()
     ap.add_argument('ast'); ap.add_argument('--main-file', required=True)
     ap.add_argument('--spec', action='append', default=[])
@@ -2281,6 +2320,7 @@ def main():
     ap.add_argument('--no-line', action='store_true')
     ap.add_argument('-o', default='-')
     ap.add_argument('--meta', default=None)
+    ap.add_argument('--structs-out', default=None)
     a = ap.parse_args()
     try:
         ast = AST(a.ast)
@@ -2300,7 +2340,11 @@ def main():
     if a.o == '-': sys.stdout.write(text)
     else: open(a.o, 'w').write(text)
     if a.meta:
-        json.dump({'functions': tr.fn_meta, 'entries': [e['name'] for e in tr.entries]}, open(a.meta, 'w'), indent=1)
+        json.dump({'functions': tr.fn_meta, 'entries': [e['name'] for e in tr.entries],
+                   'has_havoc_ghosts': 'verif_havoc_ghosts' in sp_pre,
+                   'specs': [{'name': s.name, 'sig': s.sig, 'loops': sorted(s.loops.keys())} for s in tr.specs]}, open(a.meta, 'w'), indent=1)
+    if a.structs_out:
+        open(a.structs_out, 'w').write(tr.structs_only())
 
 if __name__ == '__main__':
     main()
